@@ -504,12 +504,10 @@ pub fn run_c15(a: &Args, shared: &SharedReport) {
     {
         let mut r = shared.lock().unwrap();
         r.rule = "per call: 8 adapter placements x 4 event kinds x every handler output of the menu, compared with a direct call of the wrapped actor (calls seen, commands, state ownership and value); per system: state graph of every zoo system wrapped in each adapter vs bare; Vec client: all scripts x all incoming sequences; non-trivial = output has a command or changes the state".into();
-        r.bounds = json!({"adapters": ["Choice<A,Never>", "Choice<A1,A2> L/R", "choice![A,B,C] positions 0-2", "RegisterActor::Server", "WORegisterActor::Server"], "events": ["start","msg","timeout","random"], "outputs": if th {"819 (+4096 lists of length 3 for Keep)"} else {"819"}, "systems": "zoo systems without initial network x 3 kinds (x crashes<=1 in thorough)", "vec_client": "scripts of length <=3 over 4 (dst,msg) pairs x all incoming sequences of length 4 (5)"});
+        r.bounds = json!({"adapters": ["Choice<A,Never>", "Choice<A1,A2> L/R", "choice![A,B,C] positions 0-2", "RegisterActor::Server", "WORegisterActor::Server"], "events": ["start","msg","timeout","random"], "outputs": if th {"819 + all 12288 outputs with lists of length 3"} else {"819 + 4096 lists of length 3 (Keep)"}, "systems": "zoo systems without initial network x 3 kinds (x crashes<=1 in thorough)", "vec_client": "scripts of length <=3 over 4 (dst,msg) pairs x all incoming sequences of length 4 (5)"});
     }
     let mut menu = output_menu(2, 7);
-    if th {
-        menu.extend(output_menu(3, 7).into_iter().filter(|o| o.cmds.len() == 3 && o.st == StOp::Keep));
-    }
+    menu.extend(output_menu(3, 7).into_iter().filter(|o| o.cmds.len() == 3 && (th || o.st == StOp::Keep)));
     for which in 0..8usize {
         if (which as u64) % a.nshards == a.shard {
             adapters_run(shared, &menu, which);
